@@ -356,22 +356,31 @@ package backend
 // PeerService.IsLeader() returning true and PeerService.SyncReadRevision() returning nil.
 //@ ghost backend_writes Int
 //@ ghost backend_reads Int
+// the last request handed to the backend through the interface, its kind (1 create, 2 update,
+// 3 delete, 4 get) and its answer (C16: response shaping in the etcd shim)
+//@ ghost be_op Int
+//@ ghost be_req Ref
+//@ ghost be_resp Ref
+//@ ghost be_err Iface
 
 //@ func Backend.Create(ctx, request) (resp, err)
 //@   assumed
 //@   requires [leader-only] leader_checked
-//@   modifies ghost.backend_writes
+//@   modifies ghost.backend_writes ghost.be_op ghost.be_req ghost.be_resp ghost.be_err
 //@   ensures [counted] backend_writes == old(backend_writes)+1
+//@   ensures [recorded] be_op == 1 && be_req == request && be_resp == resp && be_err == err && (err == nil ==> resp != nil && resp.Header != nil)
 //@ func Backend.Update(ctx, request) (resp, err)
 //@   assumed
 //@   requires [leader-only] leader_checked
-//@   modifies ghost.backend_writes
+//@   modifies ghost.backend_writes ghost.be_op ghost.be_req ghost.be_resp ghost.be_err
 //@   ensures [counted] backend_writes == old(backend_writes)+1
+//@   ensures [recorded] be_op == 2 && be_req == request && be_resp == resp && be_err == err && (err == nil ==> resp != nil && resp.Header != nil)
 //@ func Backend.Delete(ctx, request) (resp, err)
 //@   assumed
 //@   requires [leader-only] leader_checked
-//@   modifies ghost.backend_writes
+//@   modifies ghost.backend_writes ghost.be_op ghost.be_req ghost.be_resp ghost.be_err
 //@   ensures [counted] backend_writes == old(backend_writes)+1
+//@   ensures [recorded] be_op == 3 && be_req == request && be_resp == resp && be_err == err && (err == nil ==> resp != nil && resp.Header != nil)
 //@ func Backend.Compact(ctx, revision) (resp, err)
 //@   assumed
 //@   requires [leader-only] leader_checked
@@ -385,8 +394,9 @@ package backend
 //@ func Backend.Get(ctx, r) (resp, err)
 //@   assumed
 //@   requires [after-sync] synced
-//@   modifies ghost.backend_reads
+//@   modifies ghost.backend_reads ghost.be_op ghost.be_req ghost.be_resp ghost.be_err
 //@   ensures [counted] backend_reads == old(backend_reads)+1
+//@   ensures [recorded] be_op == 4 && be_req == r && be_resp == resp && be_err == err && (err == nil ==> resp != nil && resp.Header != nil)
 //@ func Backend.List(ctx, r) (resp, err)
 //@   assumed
 //@   requires [after-sync] synced
